@@ -287,7 +287,8 @@ def _gen_oracles(case, rec, poly, nogo, s, rot, per, pts, used):
 
         # floor() knife edges (extent / spacing within round-off of an integer) are excluded: the layout must not change
         # when the spacing is perturbed by 1e-9 relative
-        stable = all(same_layout(_generate(case, poly, nogo, s * f, rot, per)[0]) for f in (1 - 1e-9, 1 + 1e-9))
+        stable = all(same_layout(guarded(_generate, case, poly, nogo, s * f, rot, per, what="rowwise generation (spacing perturbed by 1e-9)")[0])
+                     for f in (1 - 1e-9, 1 + 1e-9))
         if stable:
             poly2 = [[v[0] + dx, v[1] + dy] for v in poly]
             nogo2 = [[[v[0] + dx, v[1] + dy] for v in z] for z in nogo]
@@ -437,15 +438,15 @@ def _optim_oracles(case, rec, rw, sh, poly, s, per, d2r, r0, r1):
 
 
 def search_gen(ctx):
-    ctx.given(gen_case(), ctx.n(12_000, 400_000))
+    ctx.given(gen_case(), ctx.n(12_000, 200_000))
 
 
 def search_rect(ctx):
-    ctx.given(lot(rect=True), ctx.n(2000, 60_000))
+    ctx.given(lot(rect=True), ctx.n(2000, 30_000))
 
 
 def search_optim(ctx):
-    ctx.given(optim_case(), ctx.n(1200, 40_000))
+    ctx.given(optim_case(), ctx.n(1200, 15_000))
 
 
 SUBS = [
